@@ -3,7 +3,7 @@ import vlib
 from props import asynclib as al, solverstream as ss
 
 THEOREMS = ["C13_once_checker", "C13_reference", "C13_valid_oracle", "C13_protocol_invariant",
-            "C13_no_orphan_waiter", "C13_no_deadlock", "C13_pre_fix_deadlock"]
+            "C13_no_orphan_waiter", "C13_no_deadlock", "C13_pre_fix_deadlock", "C13_protocol_never_asks_twice"]
 CHECKER = ("coqc Props/C13.v + Print Assumptions; harness async_cases --kind c13: sequences of 2-4 solves on one solver (same / "
            "varied problems, after Unsolvable, after cancellation at a random or every early poll; sync, yielding, gated FIFO/LIFO) "
            "-> every solve terminates (deadlock detection), verdict = verified reference, extracted o_valid, extracted onceb over "
